@@ -27,8 +27,17 @@ def classify(r):
 def run(tier):
     res = vlib.Result("C13", tier, "other")
     b = vlib.build_property("C13")
-    n = 48 if tier == "quick" else 1500
+    n = 32 if tier == "quick" else 1500
     jobs = compiles.plan(FAMS, n, vlib.seed(), tag="c13", capture=False)
+    # every single-operator kind and every unsupported-corner kind at least once (twice in thorough)
+    import netgen
+    import random as _r
+    rk = _r.Random("c13kinds/%d" % vlib.seed())
+    for rep in range(1 if tier == "quick" else 6):
+        for kind in netgen.SINGLE_KINDS:
+            jobs.append({"family": "single:" + kind, "seed": "c13k-%d-%d" % (vlib.seed(), rep), "args": compiles.config_args(rk), "capture": False})
+        for kind in netgen.UNSUPPORTED_KINDS:
+            jobs.append({"family": "unsupported:" + kind, "seed": "c13k-%d-%d" % (vlib.seed(), rep), "args": compiles.config_args(rk), "capture": False})
     # option-combination corners
     extra = [["--optimise", "Size", "--tensor-allocator", "Greedy", "--cpu-tensor-alignment", "256"],
              ["--arena-cache-size", "1024"], ["--max-block-dependency", "0"], ["--hillclimb-max-iterations", "1"],
